@@ -129,8 +129,10 @@ def c04_r1(ctx):
     tf = prog.func("util.filelock.try_for")
     rets = [norm.canon(r.value) for r in returns_of(tf) if r.value is not None]
     calls_fn = [c for c in norm.calls_in(tf.node) if isinstance(c.func, ast.Name) and c.func.id == "fn"]
-    ctx.ob(tf, len(rets) == 1 and rets[0] in norm.definitions(tf.node) or (len(rets) == 1 and rets[0] == "v") and
-           len(calls_fn) >= 1 and all(not c.args and not c.keywords for c in calls_fn),
+    # the returned local is only ever bound to the result of fn()
+    vals = norm.assigned_names(tf.node).get(rets[0], []) if len(rets) == 1 else []
+    from_fn = bool(vals) and all(v is not None and isinstance(v, ast.Call) and v in calls_fn for v in vals)
+    ctx.ob(tf, from_fn and len(calls_fn) >= 1 and all(not c.args and not c.keywords for c in calls_fn),
            "try_for returns the result of calling fn() with no arguments", detail=str(rets))
 
 
@@ -301,13 +303,18 @@ def c04_r5(ctx):
     run = prog.method("writing.AsyncWriter", "run", inherited=False)
     ctx.saw(run)
 
+    # the local that holds the real writer: bound from self.index.writer(...) (and possibly self.writer first)
+    wvars = [n for n, vals in norm.assigned_names(run.node).items()
+             if any(v is not None and "self.index.writer(" in norm.canon(v) for v in vals)]
+    wvar = wvars[0] if len(wvars) == 1 else None
+
     def classify(func, call, res, concrete):
         t = norm.canon(call)
         if "self.index.writer(" in t:
             return "get_writer"
-        if norm.call_name(call) == "getattr":
+        if norm.call_name(call) == "getattr" and call.args and norm.canon(call.args[0]) in (wvar, "self.writer"):
             return "replay"
-        if t.startswith("writer.commit(") or t.startswith("self.writer.commit("):
+        if norm.call_name(call) == "commit" and norm.canon(norm.receiver(call)) in (wvar, "self.writer"):
             return "commit"
         return None
 
@@ -324,7 +331,7 @@ def c04_r5(ctx):
            detail=fmt(bad) if bad else "")
     # the writer-obtaining loop only exits with a writer
     loops = [n for n in ast.walk(run.node) if isinstance(n, ast.While)]
-    ok = any("writer" in norm.canon(lp.test) and "None" in norm.canon(lp.test) for lp in loops)
+    ok = wvar is not None and any(norm.canon(lp.test) in ("(%s is None)" % wvar, "(None is %s)" % wvar, "(not %s)" % wvar) for lp in loops)
     ctx.ob(run, ok, "the acquisition loop repeats while no writer was obtained")
     # events are replayed in recorded order
     fors = [n for n in ast.walk(run.node) if isinstance(n, ast.For)]
